@@ -254,6 +254,7 @@ def explore(tier, seed, programs=None, with_traces=True):
                                             "hash": p[1], "init_n": p[2], "run": runline.split(" ptrace")[0],
                                             "first_seed": r.get("first_seed"), "why": r.get("why", "deadlock"),
                                             "history": r.get("history", ""), "schedule": r.get("choices", ""),
+                                            "verified_checker": r.get("lean_verdict", "-"),
                                             "bad_of_runs": "%s/%s" % (r.get("bad"), r.get("runs"))})
             for x in rej[:3]:
                 out["rejects"].append({"program": p[0], "config": "S=%d M=%d" % c, "acceptor": x})
